@@ -16,9 +16,10 @@ def address_add_spec(self, other):
     require("mapping_wf", (m.mask == 0x8000 or m.mask == 0x10000) and v >= 0 and v < 0x1000000)
     require("address_wf", self.bus.get_mapping_for_bank(busmath.bank_of(v)) is m)
     if m.writable is False:
-        require("in_window", busmath.in_window(m.mask, v))
         require("forward", other >= 0)
-        target = busmath.rom_address(m.bank_range[0], m.mask, busmath.rom_offset(m.bank_range[0], m.mask, v) + other)
+        # below the bank window the code folds the address into the window (pinned 'from code' in C04)
+        v_eff = v if busmath.in_window(m.mask, v) else v + busmath.window_start(m.mask)
+        target = busmath.rom_address(m.bank_range[0], m.mask, busmath.rom_offset(m.bank_range[0], m.mask, v_eff) + other)
     else:
         target = v + other
     return Address(self.bus, target)
